@@ -2,7 +2,8 @@ from checks import both, EX
 
 CHECK = {
     'level': 'exploration',
-    'rule': ('cstl_array_alloc/set/slice/unslice/reset/release/at/at_const/data/size driven over 2-4 individually allocated '
+    'rule': ('[reshape] an occupied object is re-allocated / re-set with related shapes (same byte count and another element size, a few elements more or fewer, count and size exchanged, same shape again) at 240 bytes .. 1 MiB, sole owner and with co-owning offset views; [many views] 70 000 (thorough 300 000) simultaneous views of one library or external buffer, release()/lifetime checked at 2, 3, 254..258, 65534..65538 referrers going up and down; '
+             'cstl_array_alloc/set/slice/unslice/reset/release/at/at_const/data/size driven over 2-4 individually allocated '
              'array objects and up to 3 live buffers (internal via alloc, external via set on harness blocks of exactly nm*sz '
              'bytes; also a second, separate set() over a block that another object - or the object itself - already wraps, with '
              'the same or a different nm/sz that fits: two wrappers with the same data pointer but independent library blocks, '
